@@ -73,4 +73,12 @@ theorem hosts_comma_split :
       = .ok (.map [("h", .seq [.str "1.1.1.1", .str "2.2.2.2"])]) := by
   rfl
 
+/-- round 6 (recorded finding `reload-error:*:duplicates-loaded:*.ExtraHosts`): one host written with both separators
+is loaded with its address twice, and rendered with the same line twice — a list the schema's `uniqueItems` refuses on
+reload, while the source file (two different strings) passed it -/
+theorem hosts_two_separators_duplicate :
+    decode_HostsList (.seq [.str "h=1.2.3.4", .str "h:1.2.3.4"]) = .ok (.map [("h", .seq [.str "1.2.3.4", .str "1.2.3.4"])]) ∧
+    marshal_HostsList (.map [("h", .seq [.str "1.2.3.4", .str "1.2.3.4"])]) = .ok (.seq [.str "h=1.2.3.4", .str "h=1.2.3.4"]) := by
+  constructor <;> rfl
+
 end CV.Neg.C09
